@@ -181,6 +181,7 @@ fn apply(st: &mut St, op: &J) -> Result<Map<String, J>, csl::JsError> {
             if st.selected { st.tb.add_regular_input(&x.addr, &x.input, &x.value)?; }
             else { st.inputs.add_regular_input(&x.addr, &x.input, &x.value)?; st.tb.set_inputs(&st.inputs); }
             st.inputs_builder_signers.insert(u, owner_of(&x.addr_spec));
+            res.insert("item".into(), jbytes(&x.input.to_bytes()));
         }
         "AddPlutusInput" => {
             let u = op["u"].as_u64().unwrap();
@@ -256,6 +257,13 @@ fn apply(st: &mut St, op: &J) -> Result<Map<String, J>, csl::JsError> {
             let mut attach = vec![];
             let mut script_signers = vec![];
             for c in op["certs"].as_array().unwrap() {
+                if let Some(sid) = c.get("plain_script") {
+                    // a script credential handed to the plain add(): the builder must refuse it (no witness can be attached this way)
+                    let mut c2 = c.clone();
+                    c2["cred"] = json!({"t": 1, "hb": jbytes(&pscript(sid.as_u64().unwrap() as u8).hash().to_bytes())});
+                    cb.add(&mk::cert(&c2))?;
+                    continue;
+                }
                 if let Some(w) = c.get("pw") {
                     // credential = hash of Plutus script w.s; certificate witnessed by a Plutus witness with redeemer id w.rid
                     let mut c2 = c.clone();
@@ -292,6 +300,13 @@ fn apply(st: &mut St, op: &J) -> Result<Map<String, J>, csl::JsError> {
                     let ra = csl::RewardAddress::new(w["net"].as_u64().unwrap_or(0) as u8, &csl::Credential::from_scripthash(&pscript(pw["s"].as_u64().unwrap() as u8).hash()));
                     wb.add_with_plutus_witness(&ra, &bn_of(&w["amt_n"]), &plutus_witness(st, pw, &csl::RedeemerTag::new_reward()))?;
                     { let sid = pw["s"].as_u64().unwrap() as u8; attach.push(json!({"rid": pw["rid"], "purpose": 3, "item": jbytes(&ra.to_address().to_bytes()), "sh": jbytes(&pscript(sid).hash().to_bytes()), "lang": pscript(sid).language_version().kind() as u64 + 1, "db": []})); }
+                    continue;
+                }
+                if let Some(nk) = w.get("nw") {
+                    let k = nk.as_u64().unwrap() as u8;
+                    let ra = csl::RewardAddress::new(w["net"].as_u64().unwrap_or(0) as u8, &csl::Credential::from_scripthash(&mk::pubkey_script(k).hash()));
+                    wb.add_with_native_script(&ra, &bn_of(&w["amt_n"]), &csl::NativeScriptSource::new(&mk::pubkey_script(k)))?;
+                    signers.push(k);
                     continue;
                 }
                 let k = w["k"].as_u64().unwrap() as u8;
@@ -465,6 +480,7 @@ pub fn run_one(out: &mut Out, sc: usize, s: &J) {
     let byr: Vec<J> = key_ids.iter().map(|k| { let a = mk::byron_addr(*k, 764824073); json!({"k": k, "addr": jbytes(&a.to_address().to_bytes()), "vkey": jbytes(&mk::bip32(*k).to_public().as_bytes()[..32])}) }).collect();
     // script table (hash re-checked by the orchestrator with hashlib): Plutus ids 1..6, native ids 1..12; datum table
     let mut scripts: Vec<J> = (1u8..=6).map(|sid| { let ps = pscript(sid); json!({"id": sid, "kind": "plutus", "lang": ps.language_version().kind() as u64 + 1, "bytes": jbytes(&ps.bytes()), "hash": jbytes(&ps.hash().to_bytes())}) }).collect();
+    scripts.push({ let ns = any2_script(13); json!({"id": 113, "kind": "native", "lang": 0, "bytes": jbytes(&ns.to_bytes()), "hash": jbytes(&ns.hash().to_bytes())}) });
     scripts.extend((1u8..=12).map(|k| { let ns = mk::pubkey_script(k); json!({"id": k, "kind": "native", "lang": 0, "bytes": jbytes(&ns.to_bytes()), "hash": jbytes(&ns.hash().to_bytes())}) }));
     out.ev(json!({"ev": "Reset", "sc": sc, "pp": s["pp"], "utxo": env_j, "keys": keys, "byron": byr, "scripts": scripts}));
     let _ = (&st.vkeys, &st.byrons);
@@ -499,6 +515,7 @@ pub fn run_one(out: &mut Out, sc: usize, s: &J) {
         // the op is logged with its arguments resolved to wire values where the validator needs them
         let mut ev = json!({"ev": "Op", "sc": sc, "i": i, "op": name, "r": r});
         for k in ["n", "pct_n", "langs"] { if let Some(v) = op.get(k) { ev[k] = v.clone(); } }
+        if name == "AddInput" { if let Some(it) = ev["r"].get("item").cloned() { ev["item"] = it; } }
         out.ev(ev);
     }
 }
@@ -667,6 +684,15 @@ pub fn gen_plutus(rng: &mut Rng) -> J {
         rid += 1;
         ops.push(json!({"op": "AddPlutusInput", "u": u, "w": {"s": sid, "rid": rid, "script": src[&sid], "datum": datum, "dn": dn, "ex": ex(rng)}}));
     }
+    let mut fixups: Vec<J> = vec![];
+    if rng.chance(1, 6) {
+        // a key-owned output first registered as a Plutus input by mistake, then registered again as a regular input
+        let u = new_u(&mut utxo, json!({"addr": {"kind": "ent", "k": 3}, "value": {"coin_n": jn(4_000_000), "assets": []}}), rng);
+        rid += 1;
+        let sid = 1 + rng.below(4);
+        ops.push(json!({"op": "AddPlutusInput", "u": u, "w": {"s": sid, "rid": rid, "script": src[&sid], "datum": "wit", "dn": 503, "ex": ex(rng)}}));
+        fixups.push(json!({"op": "AddInput", "u": u}));
+    }
     if rng.chance(1, 3) {
         let k = 3 + rng.below(3);
         let u = new_u(&mut utxo, json!({"addr": {"kind": "script_ent", "k": k}, "value": {"coin_n": jn(3_000_000), "assets": []}}), rng);
@@ -697,7 +723,8 @@ pub fn gen_plutus(rng: &mut Rng) -> J {
         let n = 1 + rng.below(3);
         let mut certs = vec![];
         for i in 0..n {
-            let kind = *rng.pick(&[1u64, 2, 7, 8, 9, 16, 17, 18]);
+            let kind = *rng.pick(&[1u64, 2, 7, 8, 9, 14, 15, 16, 17, 18]);
+            if rng.chance(1, 10) { certs.push(json!({"k": kind, "g": true, "pool": 20 + i, "coin_n": jn(2_000_000), "cred2": {"k": 8}, "plain_script": 1 + rng.below(5)})); continue; }
             match rng.below(3) {
                 0 => { let sid = 1 + rng.below(5); rid += 1; certs.push(json!({"k": kind, "g": true, "pool": 20 + i, "coin_n": jn(2_000_000), "pw": {"s": sid, "rid": rid, "script": src[&sid], "datum": "none", "ex": ex(rng)}})); }
                 1 => certs.push(json!({"k": kind, "g": true, "pool": 20 + i, "coin_n": jn(2_000_000), "nw": 6 + i})),
@@ -712,6 +739,7 @@ pub fn gen_plutus(rng: &mut Rng) -> J {
         let mut wds = vec![];
         for i in 0..n {
             if rng.chance(1, 3) { wds.push(json!({"k": 6 + i, "amt_n": jn(100 + i)})); continue; }
+            if rng.chance(1, 3) { wds.push(json!({"nw": 1 + rng.below(12), "amt_n": jn(200 + i)})); continue; }
             let sid = sids.remove(rng.below(sids.len() as u64) as usize);
             rid += 1;
             wds.push(json!({"amt_n": jn(1000 + i), "pw": {"s": sid, "rid": rid, "script": src[&sid], "datum": "none", "ex": ex(rng)}}));
@@ -729,6 +757,7 @@ pub fn gen_plutus(rng: &mut Rng) -> J {
     if rng.chance(1, 4) { ops.push(json!({"op": "AddRefInput", "u": datum_ref})); }
     if rng.chance(1, 3) { ops.push(json!({"op": "AddOutput", "to": {"kind": "ent", "k": 11}, "value": {"coin_n": jn(1_500_000), "assets": []}})); }
     for i in (1..ops.len()).rev() { let j = rng.below(i as u64 + 1) as usize; ops.swap(i, j); }
+    ops.extend(fixups);
     ops.push(json!({"op": "AddCollateral", "u": col}));
     ops.push(json!({"op": "CalcScriptDataHash", "langs": [1, 2, 3]}));
     let to = json!({"kind": "ent", "k": 15});
